@@ -9,7 +9,7 @@ RULE = ("sessions against 0-4 scripted Keep services (per-request answers drawn 
         "last data, optionally failing Close, delivered in pieces of 1..1000 bytes) over 1-6 planted blocks "
         "(locators with consistent, missing, wrong, oversized or negative size hints, extra hints, the empty "
         "block, two locators sharing one hash, size hints beyond 32 bits and Content-Lengths above 64 MiB), Retries 0-3, BlockCache MaxBlocks 0-3; ops: Get + ReadAll / "
-        "WriteTo / ReadFull(m)+Close, Ask, ReadAt at many offsets, BlockCache.Get with the returned slice held and re-inspected after later fetches and sweeps, PutB of a block from a buffer the caller then overwrites followed by cached reads of that block, File.Read/Seek over a one-file manifest; multi-stream multi-file collections (1-3 streams, files sharing blocks, tokens straddling block boundaries, several handles via CollectionFileReader); "
+        "WriteTo / ReadFull(m)+Close, Ask, ReadAt at many offsets, BlockCache.Get with the returned slice held and re-inspected after later fetches and sweeps, PutB of a block from a buffer the caller then overwrites followed by cached reads of that block, File.Read/Seek over a one-file manifest; multi-stream multi-file collections (1-3 streams, files sharing blocks, tokens straddling block boundaries, several handles via CollectionFileReader); File.Seek with every whence (SeekStart, SeekCurrent forwards/backwards into the same or another segment, SeekEnd, negative and beyond-EOF targets) incl. seek-walk sessions on a healthy Keep (read, skip with SeekCurrent, read); "
         "re-read sessions (every first answer is a wrong 200, then the same block is read again through the same cache); concurrent schedules (2-4 readers, 1-2 blocks, every fetch request blocked and released in scripted "
         "order); storedSegment.ReadAt with arbitrary offset/length/off/len. Non-trivial = at least one HTTP "
         "request was made (or, for seg, the backend was called); distinct = distinct case line")
@@ -252,6 +252,68 @@ def _add_hold_put(rng, ops, plants, nsvc, p):
     return ops
 
 
+def _seek_op(rng, h, total, explicit=False):
+    """One File.Seek on handle h of a file of about `total` bytes: SeekStart (old form `k`), or an explicit
+    whence with a signed offset -- SeekCurrent forwards (into the same or a later segment) and backwards,
+    SeekEnd, and targets that are negative or beyond the end."""
+    hp = f"{h}:" if explicit else ""
+    r = rng.random()
+    if r < 0.35:
+        return f"k{hp}{rng.randint(0, total + 2)}"
+    if r < 0.75:
+        d = rng.choice([1, 1, 2, 3, 5, 8, 13, 21, -1, -2, -5, 0, rng.randint(-total - 1, total + 1),
+                        rng.randint(0, total + 1)])
+        return f"kc{h}:{d}"
+    if r < 0.9:
+        return f"ke{h}:{rng.choice([0, -1, -2, -5, -rng.randint(0, total + 2), 1, 3])}"
+    return f"ks{h}:{rng.choice([-1, -7, 0, rng.randint(0, total + 2)])}"
+
+
+def _gen_seekwalk(rng):
+    """A healthy Keep (every answer correct, scripts long enough for refetches after eviction), one file made
+    of 2-6 small blocks (1-4 file tokens over them), and a reader that walks the file the way an archive
+    reader does: Read a little, skip ahead or back with Seek(n, SeekCurrent) / SeekEnd, Read again. The
+    segment position cached in the handle is valid whenever a relative Seek arrives."""
+    nsvc = rng.randint(1, 2)
+    uuids = _uuids(rng, nsvc)
+    nblk = rng.randint(2, 6)
+    used, blocks, sizes = set(), [], []
+    for _ in range(nblk):
+        for _ in range(50):
+            b = bytes(rng.randrange(256) for _ in range(rng.choice([1, 2, 3, 5, 8, 10, 16, 33])))
+            loc = f"{md5(b)}+{len(b)}"
+            if loc not in used:
+                break
+        used.add(loc)
+        scripts = [",".join(f"B:{len(b) if rng.random() < 0.8 else -1}:e{rng.choice('ts')}n:{rng.choice([1, 3, 7, 1000])}:{b.hex()}"
+                            for _ in range(8)) for _ in range(nsvc)]
+        blocks.append(f"{loc}~{b.hex()}~{_order(loc[:32], uuids)}~{';'.join(scripts)}")
+        sizes.append(len(b))
+    total = sum(sizes)
+    if rng.random() < 0.6:
+        toks, flen = f"0:{total}", total
+    else:
+        ts, flen = [], 0
+        for _ in range(rng.randint(2, 4)):
+            off = rng.randint(0, total - 1)
+            ln = rng.randint(1, total - off)
+            ts.append(f"{off}:{ln}")
+            flen += ln
+        toks = ",".join(ts)
+    ops = []
+    for _ in range(rng.randint(4, 14)):
+        r = rng.random()
+        if r < 0.5:
+            ops.append(f"r{rng.choice([1, 1, 2, 3, 4, 5, 8, 12, 300])}")
+        elif r < 0.85:
+            ops.append(f"kc0:{rng.choice([1, 2, 3, 4, 5, 7, 9, 11, 15, 19, 25, rng.randint(1, flen), -1, -3, -rng.randint(1, flen)])}")
+        else:
+            ops.append(_seek_op(rng, 0, flen))
+    if ops[-1][0] == "k":
+        ops.append(f"r{rng.choice([1, 4, 300])}")
+    return f"sess 0 {rng.choice([0, 0, 1, 2])} {','.join(uuids)} {'|'.join(blocks)} {toks} {','.join(ops)}"
+
+
 def _gen_sess(rng, want_file=False, sweepy=False):
     nsvc = rng.choice([1, 2, 2, 3, 3, 4, 4, 0]) if rng.random() < 0.97 else 0
     if nsvc == 0 and rng.random() < 0.7:
@@ -287,8 +349,8 @@ def _gen_sess(rng, want_file=False, sweepy=False):
             ts.append(f"{off}:{ln}")
         toks = ",".join(ts)
         for _ in range(rng.randint(1, 12)):
-            if rng.random() < 0.2:
-                ops.append(f"k{rng.randint(0, total + 2)}")
+            if rng.random() < 0.22:
+                ops.append(_seek_op(rng, 0, total))
             else:
                 ops.append(f"r{rng.choice([0, 1, 1, 2, 3, 5, 8, 16, 64, 300])}")
     else:
@@ -360,8 +422,10 @@ def _gen_multifile(rng):
     for _ in range(rng.randint(3, 14)):
         h = rng.randrange(nh)
         r = rng.random()
-        if r < 0.2:
+        if r < 0.1:
             ops.append(f"k{h}:{rng.choice([0, 1, 2, 5, 8, 13, 20, 40, 200])}")
+        elif r < 0.2:
+            ops.append(_seek_op(rng, h, 40, explicit=True))
         elif r < 0.27 and nh < 4:
             ops.append("o" + rng.choice(paths))
             nh += 1
@@ -428,7 +492,7 @@ def _gen_reread(rng):
         toks = ",".join(f"{o}:{l}" for o, l in [(0, total)] + ([(rng.randint(0, total), 0)] if rng.random() < 0.3 else []))
         ops = []
         for _ in range(rng.randint(3, 9)):
-            ops.append(f"k{rng.randint(0, total)}" if rng.random() < 0.15 else f"r{rng.choice([1, 3, 16, 300])}")
+            ops.append(_seek_op(rng, 0, total) if rng.random() < 0.15 else f"r{rng.choice([1, 3, 16, 300])}")
         return f"sess {retries} {rng.choice([0, 0, 1, 2])} {','.join(uuids)} {'|'.join(blocks)} {toks} {','.join(ops)}"
     ops = []
     for _ in range(rng.randint(3, 8)):
@@ -531,6 +595,8 @@ def generate(rng, tier):
         cases.append(_gen_multifile(rng))
     for _ in range(40 * scale):
         cases.append(_gen_oversize(rng))
+    for _ in range(150 * scale):
+        cases.append(_gen_seekwalk(rng))
     return cases
 
 
@@ -750,6 +816,21 @@ def oracle(case, impl):
             if filedata is not None and cls == "eof" and pos + len(data) < len(filedata):
                 return "File.Read reported EOF before the end of the file"
             handles[h][1] = pos + len(data)
+        elif op[0] == "k" and op[1] in "sce":
+            # Seek with an explicit whence: the position the caller asked for is computed here, from the
+            # independently computed file size; the implementation's answer is used only where the file
+            # content is unknown (inconsistent locators)
+            a = op[2:].split(":")
+            h, d = int(a[0]), int(a[1])
+            if h < len(handles) and handles[h][0] is not None and p[1] != "noopen":
+                filedata = files.get(handles[h][0]) if files is not None else None
+                pos = handles[h][1]
+                target = d if op[1] == "s" else pos + d if op[1] == "c" else (len(filedata) + d if filedata is not None else None)
+                if target is None:
+                    if p[1].isdigit():
+                        handles[h][1] = int(p[1])
+                elif target >= 0 and p[1].isdigit():
+                    handles[h][1] = target
         elif op[0] == "k":
             a = op[1:].split(":")
             h = int(a[0]) if len(a) == 2 else 0
@@ -843,7 +924,8 @@ def describe(cases, impl):
         if f[0] == "sess":
             kinds["sess-file"] = kinds.get("sess-file", 0) + (f[5] != "-")
             for op in ([] if f[6] == "-" else f[6].split(",")):
-                k = op[0] + (op[-1] if op[0] == "G" and op[-1] in "rw" else "c" if op[0] == "G" else "")
+                k = op[0] + (op[-1] if op[0] == "G" and op[-1] in "rw" else "c" if op[0] == "G" else
+                             op[1] if op[0] == "k" and op[1] in "sce" else "")
                 ops[k] = ops.get(k, 0) + 1
             if any(not _consistent(b) for b in _parse_blocks(f[4])):
                 weak += 1
@@ -862,6 +944,8 @@ def describe(cases, impl):
                 key = "v:none" if cls[-1] == "none" else "v:bytes"
             elif cls[0] == "g" and len(cls) == 5:
                 key = "g:" + cls[3] + "/" + cls[4]
+            elif cls[0] == "k" and len(cls) == 3 and cls[1] == "neg":
+                key = "k:neg"
             elif cls[0] in ("a", "k") and cls[-1].isdigit():
                 key = cls[0] + ":ok"
             else:
